@@ -525,7 +525,7 @@ UNITS = {
             _lazy("contracts.sphere_header", "unit_sphere_read_signal", "C12")],
     "C20": [unit_circshift("C20"), _lazy("contracts.util_misc", "unit_angular", "C20"), unit_windows("C20"), _lazy("contracts.purity", "unit_purity", "C20"), _lazy("contracts.windows", "unit_gamma", "C20"), _lazy("contracts.util_misc", "unit_gauss_quant", "C20"), _lazy("contracts.accessors", "unit_ctors", "C20")],
     "C05": [unit_tri("C05", "init"), unit_tri("C05", "truncated"), unit_fbank("C05", "init"), unit_fbank("C05", "truncated"), unit_gabor("C05"), unit_gamma_prefix("C05"), _lazy("contracts.filters_gamma", "unit_gamma_loop", "C05"), _lazy("contracts.purity", "unit_purity", "C05"), _lazy("contracts.accessors", "unit_accessors", "C05")],
-    "C06": [unit_tri("C06", "frequency"), unit_fbank("C06", "frequency"), _lazy("contracts.filters_gabor", "unit_resp_length", "C06"), _lazy("contracts.filters_gabor", "unit_trunc_shape", "C06"), _lazy("contracts.filters_gabor", "unit_gamma_trunc_shape", "C06"), unit_tri("C06", "truncated"), unit_tri("C06", "init"), unit_fbank("C06", "truncated"), unit_fbank("C06", "init"), _lazy("contracts.purity", "unit_purity", "C06")],
+    "C06": [unit_tri("C06", "frequency"), unit_fbank("C06", "frequency"), _lazy("contracts.filters_gabor", "unit_resp_length", "C06"), _lazy("contracts.filters_gabor", "unit_trunc_shape", "C06"), _lazy("contracts.filters_gabor", "unit_gamma_trunc_shape", "C06"), _lazy("contracts.filters_gabor", "unit_gamma_resp_length", "C06"), unit_tri("C06", "truncated"), unit_tri("C06", "init"), unit_fbank("C06", "truncated"), unit_fbank("C06", "init"), _lazy("contracts.purity", "unit_purity", "C06")],
     "C14": [unit_torch_stft("C14"), unit_torch_wrappers("C14"), _lazy("contracts.torch_wrappers", "unit_from_stft", "C14"), _lazy("contracts.torch_wrappers", "unit_stft_module", "C14"), _lazy("contracts.torch_wrappers", "unit_stft_module_init", "C14"), _lazy("contracts.accessors", "unit_torch_small", "C14")],
     "C09": [unit_torch_stft("C09")] + [_lazy_list("contracts.cli", "units", "C09", k) for k in range(8)] + [_lazy("contracts.cli", "unit_config_type", "C09"), _lazy("contracts.accessors", "unit_dataset", "C09")],
     "C10": [_lazy_list("contracts.cli", "units", "C10", k) for k in range(6)] + [_lazy("contracts.purity", "unit_purity", "C10"), _lazy("contracts.accessors", "unit_dataset", "C10")],
